@@ -39,7 +39,6 @@ pub mod q {
         rc_harness!(u32_, u32, 6, 0);
         rc_harness!(u64_, u64, 10, 0);
         rc_harness!(tup, (u8, u16), 6, 0);
-        rc_harness!(vec_u16_1, Vec<u16>, 10, 1);
         rc_harness!(s_padded, SqPaddedC, 6, 0);
         rc_harness!(s_packed, SqPackedC, 10, 0);
         rc_harness!(e_data, EqData, 6, 0);
@@ -60,11 +59,18 @@ pub mod t {
     }
     pub mod r {
         use super::*;
-        rc_harness!(string1, String, 10, 1);
-        rc_harness!(vec_u16_2, Vec<u16>, 10, 2);
         rc_harness!(opt, Option<u32>, 6, 0);
         rc_harness!(arr, [u16; 3], 8, 0);
         rc_harness!(s_nested, SqNested, 10, 0);
         rc_harness!(e_u16, EqU16, 6, 0);
     }
+}
+/// Heap-backed values through the chunked reader: the length prefix read at a symbolic chunk position
+/// makes the allocation size symbolic for CBMC; these finish only sometimes (300-900 s) or not at all.
+/// Kept for manual runs; not part of any tier.
+pub mod x {
+    use super::*;
+    rc_harness!(vec_u16_1, Vec<u16>, 10, 1);
+    rc_harness!(vec_u16_2, Vec<u16>, 10, 2);
+    rc_harness!(string1, String, 10, 1);
 }
